@@ -62,7 +62,7 @@ def verify(srcdir, k, name, skip_suite=False):
                 return {"confirmed": res, "kept": False}
         rc1, out1 = sh(f"/venv/bin/python {eq}", cwd=wt, env=env)
         res["equiv_patched_exit"] = rc1
-        strip = lambda t: "\n".join(l for l in t.splitlines() if "Warning" not in l and "warn" not in l)
+        strip = lambda t: "\n".join(l for l in t.splitlines() if "Warning" not in l and "warn" not in l and "HTTP server on port" not in l and "distributed." not in l)
         res["equiv_identical"] = strip(out0) == strip(out1)
         if not res["equiv_identical"]:
             a, b = strip(out0).splitlines(), strip(out1).splitlines()
